@@ -34,7 +34,7 @@ class C08(PropertyCheck):
         rng, tier, workdir = ctx['rng'], ctx['tier'], ctx['workdir']
         progs = []      # (decls, calls)
         sh = shapes()
-        for name in ['if_else', 'or', 'opt_or', 'opt_or_default', 'under_operator', 'inside_lambda', 'argument_position', 'if_error_fallback', 'first_arg_of_if_error']:
+        for name in ['if_else', 'or', 'opt_or', 'opt_or_default', 'under_operator', 'inside_lambda', 'argument_position', 'if_error_fallback', 'first_arg_of_if_error', 'default_omitted_in_tail']:
             is_tail, decls, kind = sh[name]
             for count in ([3, 12] if tier == 'quick' else [0, 1, 3, 7, 12, 40]):
                 progs.append((decls + [run_decl(kind, count)], ['run']))
